@@ -200,6 +200,18 @@ def run_c06(tier, seed, replay=None):
     for _ in range(n // 8):
         g = P.Gen(rnd, allow=TREE + ["always"], depth=2)
         cases.append(mk_case([], ["q"], [g.goal(["q"]), ["lib", "always"], g.goal(["q"])], maxans=6, budget=1500))
+    # the interleaving labeling combinator map_sum called through the API, nested (every level returns an already mature stream
+    # of several answers): all combinations are answers, next to ordinary goals
+    for _ in range(n // 10):
+        lv = []
+        for v in rnd.sample(["q", "r", "t"], rnd.randint(1, 3)):
+            lv.append([v] + rnd.sample(range(1, 9), rnd.randint(1, 3)))
+        body = [["mapsum"] + lv]
+        if rnd.random() < 0.4:
+            body.append(rnd.choice([["neq", "q", lv[0][1]], ["lib", "member", "t", ["list", 1, 2]], ["eq", "r", "q"]]))
+        if rnd.random() < 0.3:
+            body.insert(0, rnd.choice([["neq", "q", 3], ["eq", "t", 2]]))
+        cases.append(mk_case([], ["q", "r", "t"], body, maxans=60, budget=6000, mode="bag"))
     return pcheck.run_check("C06", tier, seed, cases, "exact", oracle_c06, cone=CONE, replay=replay,
         rule="random tree programs (eq/neq/conj/fresh/conde/member/append/closure), each also wrapped in dfs{} (twin), plus programs with "
              "an infinite producer (always) compared on a prefix; multiset against the Python reference and against the dfs twin; "
@@ -286,7 +298,8 @@ def run_c07(tier, seed, replay=None):
     for _ in range(max(8, n // 10)):
         v = rnd.randint(1, 9)
         silent = rnd.choice([["call", "spin2", "q"], ["call", "spin3", "q"], ["closure", ["call", "spin2", "q"], ["eq", "q", 0]],
-                             ["call", "spin4", "q"], ["call", "spin4", "q"]])
+                             ["call", "spin4", "q"], ["call", "spin4", "q"], ["loop", ["call", "spin", "q"]],
+                             ["loop", ["conj", ["call", "spin", "q"], ["eq", "q", 3]]]])
         branches = [silent, ["eq", "q", v]]
         if rnd.random() < 0.5:
             branches.reverse()
@@ -482,6 +495,12 @@ def run_c09(tier, seed, replay=None):
         body = [["fresh", hv, ["dom", "q", ["v"] + qd], ["dom", ["list"] + hv[:-1], ["i", 1, k - 1]], ["dom", hv[-1], ["i", 1, k]],
                  ["rel", "distinctfd", ["list"] + hv]] + ([["rel", "ltefd", hv[0], hv[1]]] if rnd.random() < 0.3 else [])]
         hs.append(mk_case([], ["q"], body, maxans=30, budget=20000, mode="bag", fd=True, must_answer=True))
+    # CLP(Z) chains in which one constraint solves an operand another one waits on, woken by a unification: the store is
+    # re-run in hash order, the answers must not depend on it
+    for _ in range(max(6, n // 25)):
+        a, b = rnd.randint(1, 3), rnd.randint(1, 4)
+        body = [["fresh", ["u", "p"], ["rel", "plusz", "u", 1, "q"], ["rel", "plusz", a, "u", "p"], ["rel", "timesz", "u", 2, "r"], ["eq", "p", a + b]]]
+        hs.append(mk_case([], ["q", "r"], body, maxans=5, budget=3000, mode="bag", must_answer=True))
     cases = hs + cases            # among the first cases: they are also re-run in fresh processes
     for c in hs * 3:
         cases.append(dict(c))
